@@ -71,7 +71,10 @@ streampos FileTools::getFileSize(const std::string& filename)
 std::string FileTools::getParent(const std::string& path, char dirSep)
 {
   // Position of file name:
-  ptrdiff_t begin = static_cast<ptrdiff_t>(path.find_last_of(dirSep));
+  size_t pos = path.find_last_of(dirSep);
+  if (pos == string::npos)
+    return ""; // No directory part: begin() + npos is not a valid iterator.
+  ptrdiff_t begin = static_cast<ptrdiff_t>(pos);
 
   // Copy string and delte filename:
   string result(path);
